@@ -75,6 +75,13 @@ pub fn histories(p: u64, tier: Tier, heavy: bool) -> Vec<Vec<Action>> {
     }
     let del6: Vec<OpSpec> = (0..6).map(|i| OpSpec::del(&["t"], &format!("s{:02}*{}", 2 * i + 1, klen))).collect();
     out.push(vec![tx(t3.clone()), tx(del6), Action::Reopen, tx(vec![OpSpec::put(&["t"], &format!("s00*{}", klen), &small)])]);
+    // the three-level tree losing almost everything in one transaction (an inner branch is left
+    // with a single child and becomes the root), then shrinking further
+    let keeps = [vec![13usize], vec![0], vec![6], vec![12, 13], vec![0, 13], vec![5, 6, 7]];
+    for keep in keeps.iter().take(if heavy { 1 } else if p >= 65536 { 3 } else { 6 }) {
+        let dels: Vec<OpSpec> = (0..14).filter(|i| !keep.contains(i)).map(|i| OpSpec::del(&["t"], &format!("s{:02}*{}", 2 * i + 1, klen))).collect();
+        out.push(vec![tx(t3.clone()), tx(dels), tx(vec![OpSpec::put(&["t"], &format!("s00*{}", klen), &small)]), Action::Reopen, tx(vec![OpSpec::del(&["t"], &format!("s{:02}*{}", 2 * keep[0] + 1, klen))])]);
+    }
     // nested buckets, error kinds, delete nested then ancestor
     out.push(vec![
         tx(vec![OpSpec::bucket("create", &[], "x"), OpSpec::bucket("create", &["x"], "y"), OpSpec::put(&["x", "y"], "in", &third), OpSpec::put(&["x"], "y", &small), OpSpec::bucket("create", &[], "x"), OpSpec::bucket("getb", &["x"], "nope")]),
@@ -92,6 +99,29 @@ pub fn histories(p: u64, tier: Tier, heavy: bool) -> Vec<Vec<Action>> {
         tx(vec![OpSpec::del(&["e"], &longkey), OpSpec::put(&["e"], "a", &third)]),
     ]);
     out
+}
+
+/// A run whose persisted free list climbs one or two ids per commit across the capacity of one
+/// page (the list then occupies an overflow page, or is left with one page more than it needs once
+/// it has given up its own pages), with a reopen after every commit.
+pub fn freelist_boundary_history(p: u64) -> Vec<Action> {
+    let cap = (p - 32) / 8;
+    let n = cap + 24;
+    let val = format!("F*{}", p * 6 / 10);
+    let mut ops = vec![OpSpec::bucket("create", &[], "f")];
+    for i in 0..n {
+        ops.push(OpSpec::put(&["f"], &format!("f{:05}", i), &val));
+    }
+    let mut acts = vec![tx(ops)];
+    let bulk = cap.saturating_sub(14);
+    acts.push(tx((0..bulk).map(|i| OpSpec::del(&["f"], &format!("f{:05}", i))).collect()));
+    acts.push(Action::Reopen);
+    for i in bulk..(bulk + 30).min(n) {
+        acts.push(tx(vec![OpSpec::del(&["f"], &format!("f{:05}", i))]));
+        acts.push(Action::Reopen);
+    }
+    acts.push(tx(vec![OpSpec::put(&["f"], "after", "v*8")]));
+    acts
 }
 
 /// A run that has to extend the file several times, starting from the configured initial size.
@@ -180,6 +210,9 @@ pub fn worker(idx: usize) {
         if j["growth"].as_bool().unwrap_or(false) {
             hs = vec![growth_history(cfg.pagesize)];
         }
+        if j["flb"].as_bool().unwrap_or(false) {
+            hs = vec![freelist_boundary_history(cfg.pagesize)];
+        }
         for (hi, h) in hs.iter().enumerate() {
             emit(&format!("cfg {} history {}", ci, hi));
             let (v, c, _) = run_history(&path, &cfg, h, &or);
@@ -226,6 +259,16 @@ pub fn run(check: &mut Check) {
             meta.push((format!("cfg {} growth", ci), Some(ci)));
         }
     }
+    // free list across the one-page capacity, reopened after every commit
+    let mut flb_runs = 0u64;
+    for (ci, c) in cfgs.iter().enumerate() {
+        let max_ps = if tier == Tier::Quick { 5000 } else { 16384 };
+        if c.pagesize <= max_ps && !c.populate && (c.num_pages == 32 || (tier == Tier::Thorough && c.pagesize <= 5000)) {
+            jobs.push(json!({"cfg": ci, "flb": true}).to_string());
+            meta.push((format!("cfg {} free-list-boundary", ci), Some(ci)));
+            flb_runs += 1;
+        }
+    }
     for ps in odd_sizes() {
         jobs.push(json!({"odd": ps}).to_string());
         meta.push((format!("odd {}", ps), None));
@@ -243,8 +286,8 @@ pub fn run(check: &mut Check) {
             commits += v["commits"].as_u64().unwrap_or(0);
             if let Some(ps) = v["odd"].as_u64() {
                 odd_outcomes.entry(v["outcome"].as_str().unwrap_or("?").to_string()).or_default().push(ps);
-            } else if label.ends_with("growth") {
-                growth_runs += 1;
+            } else if label.ends_with("growth") || label.ends_with("boundary") {
+                growth_runs += label.ends_with("growth") as u64;
             } else {
                 configs_done += 1;
             }
@@ -289,6 +332,7 @@ pub fn run(check: &mut Check) {
     check.cov("rule", json!("one evaluation = one history executed from a fresh file under one configuration with every return value, every post-commit dump, the independent file check and DB::check() compared with the reference model; distinct_nontrivial = configurations of the product page size x initial pages x strict x populate that ran their full history set (all of them distinct, all non-default except one)"));
     check.cov("configurations", json!(cfgs.len()));
     check.cov("growth_runs_crossing_extension_steps", json!(growth_runs));
+    check.cov("free_list_boundary_runs", json!(flb_runs));
     check.cov("commits", json!(commits));
     check.cov("odd_page_sizes", json!(odd_outcomes));
     check.cov("exhaustive", json!(true));
